@@ -262,6 +262,14 @@ impl Buffer {
         }
     }
 
+    /// Number of consecutive scrolls after which every row of the scrolling region is blank:
+    /// scrolling up or down more often than that changes nothing.
+    fn max_effective_scrolls(&self, layer: usize) -> i32 {
+        let start_line = self.get_first_editable_line();
+        let end_line = min(self.get_last_editable_line(), self.layers[layer].get_height().saturating_sub(1));
+        max(0, end_line.saturating_sub(start_line).saturating_add(1))
+    }
+
     fn scroll_up(&mut self, layer: usize) {
         let start_line: i32 = self.get_first_editable_line();
         let end_line = self.get_last_editable_line();
